@@ -499,10 +499,22 @@ func (m *Machine) assignTo(src *RV, dst types.Type, method string) Value {
 	return v
 }
 
-// structTagLookupSym models StructTag.Lookup on a symbolic tag string: provided by kernels.go.
+// SymTag is a struct tag whose json value is symbolic: `json:"<V>"`. (The quoting is
+// reflect's business; kernels quantify over the unquoted value.)
+type SymTag struct {
+	JSON Value // string or *BStr
+}
+
 func (m *Machine) structTagLookupSym(tag, key Value) Value {
-	unsupported("StructTag.Lookup on symbolic tag")
-	return nil
+	st, ok := tag.(*SymTag)
+	k, ok2 := key.(string)
+	if !ok || !ok2 {
+		unsupported("StructTag.Lookup on symbolic tag")
+	}
+	if k == "json" {
+		return Tuple{st.JSON, true}
+	}
+	return Tuple{"", false}
 }
 
 var _ = strings.Contains
